@@ -26,6 +26,10 @@ func (server *Server) Set(conn *redis.Conn, key string, val string, opt redis.Se
 		return nil, err
 	}
 
+	if opt.XX && !db.HasRecord(key) {
+		return redis.NewNilMessage(), nil
+	}
+
 	var oldVal []byte
 	hasOldRecord := false
 	if opt.NX || opt.GET {
